@@ -793,6 +793,223 @@ def registration_checks(ck, rng):
 
 
 # ---------------------------------------------------------------------------------------------
+# registration SEQUENCES: the same ABIReturnSubroutine object registered several times (one router, several
+# overriding names / descriptions) and in several routers built in one process.  Every contract entry must be a
+# function of its own registration only, and building a later router must not change an earlier router's contract.
+# ---------------------------------------------------------------------------------------------
+SEQ_TYPES = [("uint", 64), "string", "bool", ("uint", 8), "address", ("tuple", ("uint", 16), "bool")]
+
+
+def seq_text(seq):
+    out = []
+    for i, sb in enumerate(seq["subs"]):
+        out.append("f%d = ABIReturnSubroutine(%s%s)" % (i, CL.signature(sb["name"], [A.arc4_str(t) for t in sb["params"]],
+                                                                       "void" if sb["ret"] is None else A.arc4_str(sb["ret"])),
+                                                     ", docstring %r" % sb["doc"] if sb.get("doc") else ""))
+    for ri, regs in enumerate(seq["routers"]):
+        for rg in regs:
+            kw = ""
+            if rg.get("regname"):
+                kw += ", overriding_name=%r" % rg["regname"]
+            if rg.get("desc") is not None:
+                kw += ", description=%r" % rg["desc"]
+            out.append("R%d.add_method_handler(f%d%s)" % (ri, rg["sub"], kw))
+    return "; ".join(out)
+
+
+def seq_expected(seq, rg):
+    sb = seq["subs"][rg["sub"]]
+    name = rg.get("regname") or sb["name"]
+    args = [("p%d" % i, A.arc4_str(t)) for i, t in enumerate(sb["params"])]
+    ret = "void" if sb["ret"] is None else A.arc4_str(sb["ret"])
+    desc = rg["desc"] if rg.get("desc") is not None else (sb.get("doc") or None)
+    sel = CL.selector(CL.signature(name, [t for _, t in args], ret))
+    return (name, args, ret, desc, sel)
+
+
+def contract_entries(contract):
+    return [(cm.name, [(a.name, str(a.type)) for a in cm.args], str(cm.returns.type), (cm.desc or None), cm.get_selector()) for cm in contract.methods]
+
+
+def seq_check(seq, version=8):
+    """-> (failures [str], model_mismatches [str], n_checks)"""
+    import pyteal as pt
+    mdl = model()
+    fails, corr = [], []
+    n = 0
+    subs = []
+    for si, sb in enumerate(seq["subs"]):
+        def body(ps, output, si=si):
+            steps = [pt.Log(pt.Bytes(b"sub-%d" % si))]
+            if output is not None:
+                steps.append(output.decode(ps[0].encode()))
+            return pt.Seq(*steps)
+        g = {"__body": body}
+        parts = []
+        for i, t in enumerate(sb["params"]):
+            g["T%d" % i] = A.to_pyteal(t).annotation_type()
+            parts.append("p%d: T%d" % (i, i))
+        if sb["ret"] is not None:
+            g["R"] = A.to_pyteal(sb["ret"]).annotation_type()
+            parts.append("*, output: R")
+        doc = '    """%s"""\n' % sb["doc"] if sb.get("doc") else ""
+        exec("def %s(%s):\n%s    return __body([%s], %s)\n" % (
+            sb["name"], ", ".join(parts), doc, ", ".join("p%d" % i for i in range(len(sb["params"]))), "output" if sb["ret"] is not None else "None"), g)
+        subs.append(pt.ABIReturnSubroutine(g[sb["name"]]))
+    routers, early, early_objs = [], [], []
+    for ri, regs in enumerate(seq["routers"]):
+        router = pt.Router("R%d" % ri)
+        for rg in regs:
+            kw = {}
+            if rg.get("regname"):
+                kw["overriding_name"] = rg["regname"]
+            if rg.get("desc") is not None:
+                kw["description"] = rg["desc"]
+            router.add_method_handler(subs[rg["sub"]], **kw)
+        teal, _c, contract = router.compile_program(version=version)
+        routers.append(router)
+        early.append(contract_entries(contract))
+        early_objs.append(contract)
+    for ri, regs in enumerate(seq["routers"]):
+        teal, _c, contract = routers[ri].compile_program(version=version)
+        late = contract_entries(contract)
+        exp = [seq_expected(seq, rg) for rg in regs]
+        n += 1
+        for when, got in (("when router R%d was built" % ri, early[ri]), ("after all routers were built", late),
+                          ("in the contract object returned earlier, re-read after all routers were built", contract_entries(early_objs[ri]))):
+            if got != exp:
+                k = next((i for i, (a, b) in enumerate(zip(got, exp)) if a != b), min(len(got), len(exp)))
+                g_, e_ = (got[k] if k < len(got) else None), (exp[k] if k < len(exp) else None)
+                fails.append("contract of R%d, entry %d, %s: %s — registered: %s" % (
+                    ri, k, when, g_ and {"name": g_[0], "args": g_[1], "returns": g_[2], "desc": g_[3], "selector": g_[4].hex()},
+                    e_ and {"name": e_[0], "args": e_[1], "returns": e_[2], "desc": e_[3], "selector": e_[4].hex()}))
+                break
+        if late != early[ri] and not fails:
+            fails.append("contract of R%d changed after later routers were built: %r -> %r" % (ri, early[ri], late))
+        tsel = teal_selectors(teal)
+        if sorted(s_ for s_, _ in tsel if s_ is not None) != sorted(e[4] for e in exp) or any(s_ is None for s_, _ in tsel):
+            fails.append("approval program of R%d dispatches on %s, registered selectors are %s" % (
+                ri, [(s_.hex() if s_ else None, g_) for s_, g_ in tsel], [(e[4].hex(), e[0]) for e in exp]))
+        # model: spec_of of every registration
+        for k, rg in enumerate(regs):
+            sb = seq["subs"][rg["sub"]]
+            r = mdl.ask((S("sigstr"), sb["name"], rg.get("regname") or sb["name"], tuple(A.ty_sx(t) for t in sb["params"]),
+                         S("void") if sb["ret"] is None else A.ty_sx(sb["ret"])))
+            if k < len(contract.methods) and contract.methods[k].get_signature() != r[3]:
+                corr.append("R%d entry %d: real contract signature %r, model spec_of %r" % (ri, k, contract.methods[k].get_signature(), r[3]))
+        # behaviour: a client that follows contract entry k must reach the subroutine registered k-th
+        msel = [(s_, CL.selector(s_)) for s_ in method_lines(teal)]
+        for k, rg in enumerate(regs):
+            if k >= len(contract.methods):
+                break
+            sb = seq["subs"][rg["sub"]]
+            rng = random_for(seq, ri, k)
+            args = gen_args(rng, sb["params"])
+            c = CL.client_call(contract.methods[k].name, [A.arc4_str(t) for t in sb["params"]], "void" if sb["ret"] is None else A.arc4_str(sb["ret"]), args, SENDER, APP_ID)
+            c.app_args[0] = contract.methods[k].get_selector()
+            ctx, _gi = call_ctx(c, [], [], msel)
+            verdict, logs = logs_of(mdl.ask((S("run"), ctx, teal)))
+            n += 1
+            if verdict != "approve" or not logs or logs[0] != b"sub-%d" % rg["sub"]:
+                fails.append("a client following entry %d of R%d's contract (%s, selector %s) gets verdict %r, logs %r; registered there: f%d" % (
+                    k, ri, contract.methods[k].get_signature(), contract.methods[k].get_selector().hex(), verdict, [l.hex() for l in (logs or [])][:2], rg["sub"]))
+    return fails, corr, n
+
+
+def random_for(seq, ri, k):
+    import random
+    return random.Random(hash((len(seq["subs"]), ri, k)) & 0xFFFF)
+
+
+def gen_sequences(rng, thorough):
+    out = []
+    U = ("uint", 64)
+    dep = lambda doc: {"name": "deposit", "params": [U], "ret": U, "doc": doc}
+    # (A) one router, the same object under 2 or 3 overriding names, every description pattern
+    for doc in (None, "Deposit some amount."):
+        for k in (2, 3):
+            for pat in range(1 << k):
+                regs = [{"sub": 0, "regname": "deposit_v%d" % (i + 1), "desc": ("version %d" % (i + 1)) if pat >> i & 1 else None} for i in range(k)]
+                out.append({"subs": [dep(doc)], "routers": [regs]})
+        # own name first / last among the aliases
+        out.append({"subs": [dep(doc)], "routers": [[{"sub": 0}, {"sub": 0, "regname": "put"}]]})
+        out.append({"subs": [dep(doc)], "routers": [[{"sub": 0, "regname": "put", "desc": "alias"}, {"sub": 0}]]})
+    # (B) two routers, the same object, every combination of overriding name / description on either side
+    for doc in (None, "Deposit some amount."):
+        for a in range(4):
+            for b in range(4):
+                ra = {"sub": 0}
+                rb = {"sub": 0}
+                if a & 1:
+                    ra["regname"] = "put"
+                if a & 2:
+                    ra["desc"] = "router A's words"
+                if b & 1:
+                    rb["regname"] = "store"
+                if b & 2:
+                    rb["desc"] = "router B's words"
+                out.append({"subs": [dep(doc)], "routers": [[ra], [rb]]})
+    # (C) three routers
+    out.append({"subs": [dep(None)], "routers": [[{"sub": 0, "regname": "a"}], [{"sub": 0}], [{"sub": 0, "regname": "c", "desc": "third"}]]})
+    # (D) random: 2-3 subroutine objects, 2-3 routers, 1-4 registrations each
+    for q in range(60 if thorough else 24):
+        subs = []
+        for i in range(rng.choice([2, 2, 3])):
+            params = [rng.choice(SEQ_TYPES) for _ in range(rng.choice([1, 1, 2, 3]))]
+            subs.append({"name": "g%d" % i, "params": params, "ret": rng.choice([None, params[0]]), "doc": rng.choice([None, None, "Doc of g%d." % i])})
+        routers = []
+        for ri in range(rng.choice([2, 2, 3])):
+            regs, used = [], set()
+            for k in range(rng.choice([1, 2, 3, 4])):
+                si = rng.randrange(len(subs))
+                rg = {"sub": si}
+                if rng.random() < 0.6:
+                    rg["regname"] = "n%d_%d" % (ri, k)
+                if rng.random() < 0.4:
+                    rg["desc"] = "desc %d.%d" % (ri, k)
+                nm = rg.get("regname") or subs[si]["name"]
+                if (nm, si) in used or any(u[0] == nm for u in used):
+                    continue
+                used.add((nm, si))
+                regs.append(rg)
+            if regs:
+                routers.append(regs)
+        if routers:
+            out.append({"subs": subs, "routers": routers})
+    return out
+
+
+def seq_worker(job):
+    qi, seq = job
+    return qi, call_real(seq_check, seq, (6, 8, 10)[qi % 3])
+
+
+def sequence_results(ck, seqs, results):
+    """-> (failing [(seq, [what])], model mismatches [str])"""
+    failing, corr_all = [], []
+    nreg = {"sequences": len(seqs), "registrations": 0, "same_object_reregistered": 0, "checks": 0}
+    for qi, r in results:
+        seq = seqs[qi]
+        regs = [(ri, rg["sub"]) for ri, rr in enumerate(seq["routers"]) for rg in rr]
+        nreg["registrations"] += len(regs)
+        nreg["same_object_reregistered"] += len(regs) - len(set(s_ for _, s_ in regs))
+        ck.count(("seq", repr(seq)))
+        if r[0] != "ok":
+            failing.append((seq, ["building the routers raised %s: %s" % (r[1], r[2])]))
+            continue
+        fails, corr, n = r[1]
+        nreg["checks"] += n
+        ck.evaluations += n
+        corr_all += corr
+        if fails:
+            failing.append((seq, fails))
+    ck.coverage["registration_sequences"] = nreg
+    if seqs:
+        ck.sample({"registration_sequence": seq_text(seqs[min(40, len(seqs) - 1)])}, limit=7)
+    return failing, corr_all
+
+
+# ---------------------------------------------------------------------------------------------
 # shrinking
 # ---------------------------------------------------------------------------------------------
 def fails_like(case, combos, kind):
@@ -962,6 +1179,7 @@ def main(argv):
 
     t1 = time.time()
     bad_reg = registration_checks(ck, ck.rng)
+    seqs = gen_sequences(ck.rng, thorough)
     import multiprocessing as mp
     global _model
     _model.close()
@@ -973,6 +1191,8 @@ def main(argv):
     ck.coverage["worker_processes"] = nprocs
     with mp.get_context("fork").Pool(nprocs) as pool:
         results = pool.map(worker, jobs, chunksize=1)
+        seq_results = pool.map(seq_worker, list(enumerate(seqs)), chunksize=1)
+    seq_failing, seq_corr = sequence_results(ck, seqs, seq_results)
     phase["cases"] = round(time.time() - t1, 1)
 
     # ---- aggregate ----
@@ -1014,7 +1234,7 @@ def main(argv):
             if x not in ck.notes and len(ck.notes) < 5:
                 ck.notes.append(x)
         want = (3, 16, 21, 9)
-        if len(ck.samples) < 4 and origin.startswith("random") and len(ps) in want and not any(s_["n_params"] == len(ps) for s_ in ck.samples):
+        if len(ck.samples) < 5 and origin.startswith("random") and len(ps) in want and not any(s_.get("n_params") == len(ps) for s_ in ck.samples):
             s_ = case_summary(case)
             s_["n_params"] = len(ps)
             s_["binding_plan"] = repr(r["plan"])
@@ -1065,7 +1285,13 @@ def main(argv):
         small = {"methods": case["methods"], "target": case["target"], "calls": case["calls"][:1]}
         ck.violation("registration %s: %s" % (registration_text(case), f["what"]),
                      {"kind": "contract", "case": jd(small), "combo": [f.get("version", 8), None, None, f.get("asm", False)], "detail": f})
+    seq_failing.sort(key=lambda sf: sum(len(r_) for r_ in sf[0]["routers"]) * 10 + len(sf[0]["subs"]))
+    for seq, whats in seq_failing[:3]:
+        ck.violation("registration sequence [%s]: %s" % (seq_text(seq), whats[0]),
+                     {"kind": "registration-sequence", "sequence": jd(seq), "registrations": seq_text(seq), "detail": whats[:6]})
     broken = []
+    if seq_corr:
+        broken.append("contract correspondence on registration sequences: %d entries differ from spec_of, first: %s" % (len(seq_corr), seq_corr[0]))
     if plan_mis:
         broken.append("plan correspondence: binding_plan (Router/Args.v) != placement of the ARC-4 client on %d calls" % len(plan_mis))
     if bind_mis:
@@ -1076,11 +1302,11 @@ def main(argv):
         broken.append("registration checks differ")
     if contract_corr:
         broken.append("contract correspondence: signature in the real contract != spec_of (Router/Args.v) on %d compilations, first %r" % (len(contract_corr), contract_corr[0][1]))
-    if broken and not fails and not contract_bad:
+    if broken and not fails and not contract_bad and not seq_failing:
         ck.violation("; ".join(broken) + "; behaviour search over %d executions found no wrong binding" % tot["runs"],
                      {"kind": "correspondence", "broken": broken, "first_plan": plan_mis[:1], "first_bind": bind_mis[:1],
                       "log": getattr(ck, "proof_log", "")[-1500:] if not ck.proof_ok else ""}, no_failing_input=True)
-    ck.coverage["disagreements_checked"] = len(plan_mis) + len(bind_mis) + len(fails) + len(contract_bad)
+    ck.coverage["disagreements_checked"] = len(plan_mis) + len(bind_mis) + len(fails) + len(contract_bad) + len(seq_failing) + len(seq_corr)
     ck.coverage["plan_mismatches"] = len(plan_mis)
     phase["report"] = round(time.time() - t2, 1)
     return finish(ck)
@@ -1121,6 +1347,19 @@ def finish(ck):
 
 def replay(ck, path):
     d = json.load(open(path))
+    if d.get("kind") == "registration-sequence":
+        seq = jl(d["sequence"])
+        ck.count(("replay", path))
+        r = call_real(seq_check, seq, 8)
+        whats = r[1][0] if r[0] == "ok" else ["building the routers raised %s: %s" % (r[1], r[2])]
+        for w_ in whats[:3]:
+            print("replay: still failing: %s" % w_)
+        if whats:
+            ck.violation("replay registration sequence [%s]: %s" % (seq_text(seq), whats[0]),
+                         {"kind": "registration-sequence", "sequence": jd(seq), "registrations": seq_text(seq), "detail": whats[:6]})
+        else:
+            print("replay: the registration sequence passes now")
+        return finish(ck)
     if "case" not in d:
         print("replay: this record has no concrete case (%s)" % d.get("broken"))
         return finish(ck)
